@@ -108,7 +108,12 @@ func (s *session) loopWrite() {
 		}
 
 		verifpoint.HitArg("redis.session.write.before-wait", s)
-		req.Wait()
+		// NOTE: the backend may never answer, don't outlive the connection.
+		select {
+		case <-req.done:
+		case <-s.quit:
+			return
+		}
 		// TODO(kirk91): abstract response
 		resp := req.Response()
 		if err = s.enc.Encode(resp); err != nil {
